@@ -30,7 +30,7 @@ import (
 )
 
 type c16Case struct {
-	Cfg   string   `json:"cfg"`   // scheduler ("", rr, 7540, rand) + "-hw"/"-hb" handler mode + "-blk" (client does not read)
+	Cfg   string   `json:"cfg"`   // scheduler ("", rr, 7540, rand) + handler mode "-hw" (writes), "-hb" (blocks until cancelled), "-hi" (ignores cancellation) + "-blk" (client does not read)
 	Pre   string   `json:"pre"`   // preface variant: ok, none, short, wrong, nosettings
 	Items []string `json:"items"` // frame templates / flood macros
 	Cut   int      `json:"cut"`   // >0: the last item is truncated to its first Cut bytes
@@ -288,10 +288,11 @@ func c16Exec(t testing.TB, w *vx.W, cs c16Case) {
 			o.Sched = p
 		case p == "blk":
 			blocked = true
-		case p == "hw" || p == "hb":
+		case p == "hw" || p == "hb" || p == "hi":
 			hmode = p
 		}
 	}
+	release := make(chan struct{})
 	o.Handler = func(rw http.ResponseWriter, req *http.Request) {
 		if hmode == "hw" {
 			rw.Write([]byte("hello"))
@@ -300,10 +301,15 @@ func c16Exec(t testing.TB, w *vx.W, cs c16Case) {
 			}
 			return
 		}
+		if hmode == "hi" {
+			<-release // a handler that ignores cancellation
+			return
+		}
 		<-req.Context().Done()
 	}
 	s := c15srvNew(t, o)
 	defer s.finish()
+	defer close(release)
 	r := &c16Run{w: w, s: s}
 
 	var all []byte
@@ -474,7 +480,7 @@ func c16Exec(t testing.TB, w *vx.W, cs c16Case) {
 		}
 		s.mu.Lock()
 		defer s.mu.Unlock()
-		return s.running == 0
+		return s.running == 0 || hmode == "hi"
 	})
 	r.check("after the client closed the connection")
 	if !ok && !w.Failed() {
@@ -563,7 +569,11 @@ func TestVerif_C16(t *testing.T) {
 			}
 			for _, fl := range []string{"FLOOD:ping", "FLOOD:settings", "FLOOD:rapidreset", "FLOOD:continuation"} {
 				for _, sc := range fscheds {
-					for _, mode := range fmodes {
+					modes := fmodes
+					if fl == "FLOOD:rapidreset" {
+						modes = append(append([]string(nil), fmodes...), "-hi", "-hi-blk")
+					}
+					for _, mode := range modes {
 						for _, pre := range fpres {
 							if fl == "FLOOD:rapidreset" && len(pre) > 0 && pre[0] == "H3o" {
 								continue // the flood itself starts at stream 1
